@@ -166,6 +166,39 @@ theorem get_tag_word (s : List Cell) (h : Nat) (hh : h ≤ s.length) :
     wordGetTag.runStack h (k :: c :: s) = .ok ((c.getTag k).getD .nil :: s) := by
   unfold wordGetTag; run_simp
 
+/-- **the formatting words** (`^hex ^dec ^oct ^bin` = `<fmt-base>` with the base pushed by the compiler; `fmt/prefix`
+    `fmt/tags` `fmt/upcase` = one bit each) leave the value on top as it is or hand it back with ONE tag inserted,
+    `#fmt`; the value under the tags is the same, and by `insert_tag_word`'s laws every other tag stays (seeded change
+    C13/13 built a fresh tag map instead) -/
+theorem fmt_base_word (n : Nat) (hn : (Cell.int (n : Nat)).toUsize = .ok n) (s : List Cell) (h : Nat) (hh : h ≤ s.length) :
+    wordFmtBase.runStack h (.int (n : Nat) :: c :: s) = .ok (c :: s) ∨
+    ∃ fl : Nat, wordFmtBase.runStack h (.int (n : Nat) :: c :: s) = .ok (c.insertTag fmtKey (.int (fl : Nat)) :: s) := by
+  unfold wordFmtBase putFmt
+  rw [runStack_pop_cons _ _ _ _ (by simp; omega)]
+  simp only [hn, ofOutcome]
+  rw [runStack_top_cons _ _ _ _ hh]
+  split
+  · right
+    refine ⟨fmtRaw c - fmtRaw c % 256 + n % 256, ?_⟩
+    rw [runStack_pop_cons _ _ _ _ hh]; simp [runStack]
+  · left; simp [runStack]
+
+theorem fmt_bit_word (k : Nat) (t : Bool) (s : List Cell) (h : Nat) (hh : h ≤ s.length) :
+    (wordFmtBit k).runStack h (.flag t :: c :: s) = .ok (c :: s) ∨
+    ∃ fl : Nat, (wordFmtBit k).runStack h (.flag t :: c :: s) = .ok (c.insertTag fmtKey (.int (fl : Nat)) :: s) := by
+  unfold wordFmtBit putFmt
+  rw [runStack_pop_cons _ _ _ _ (by simp; omega)]
+  simp only [Cell.toBool, Cell.value, ofOutcome]
+  rw [runStack_top_cons _ _ _ _ hh]
+  split
+  · right
+    refine ⟨setFlagBit (fmtRaw c) k t, ?_⟩
+    rw [runStack_pop_cons _ _ _ _ hh]; simp [runStack]
+  · left; simp [runStack]
+
+/-- … and the value under the tags is untouched -/
+theorem fmt_words_keep_the_value (fl : Nat) : (c.insertTag fmtKey (.int (fl : Nat))).value = c.value := value_insert_tag _ _ _
+
 /-- the tag map of a cell (empty for an untagged one) -/
 def tagMap (c : Cell) : PairList := c.tags.getD .nil
 
